@@ -4,11 +4,11 @@ package main
 
 import (
 	"fmt"
-	"os"
-	"sort"
 	"go/token"
 	"go/types"
+	"os"
 	"path"
+	"sort"
 	"strings"
 
 	"golang.org/x/tools/go/ssa"
@@ -442,7 +442,9 @@ func (e *Engine) pkgOfContract(ct *Contract, fn *ssa.Function) *ssa.Package {
 
 // havocModifies havocs ghost variables and heap designators.
 // modTargets resolves modifies designators:
-//   ghostName | heap | key:<K> | *ptrExpr | mapof(expr) | elems(expr) | expr.field
+//
+//	ghostName | heap | key:<K> | *ptrExpr | mapof(expr) | elems(expr) | expr.field
+//
 // into ghost names, heap keys (coarse: the whole array of that kind) and precise cells.
 type modTargets struct {
 	ghosts []string
@@ -665,7 +667,25 @@ func (e *Engine) builtin(fr *Frame, st *State, b *ssa.Builtin, c *ssa.CallCommon
 		// model: fresh backing = copy of old backing with y's elements written after len(x). Supported for literal lengths 0 and 1.
 		n, ok := e.constLen(y)
 		if !ok || n > 4 {
-			return nil, fmt.Errorf("append with a non-constant number of elements (outside subset)")
+			// append(x, y...) with a symbolic number of elements: the result's backing array is a fresh row that agrees with
+			// x's row outside [len(x), len(x)+len(y)) and with y's elements inside (two quantified path facts)
+			ref := st.newRef()
+			row := sel(h, "(s_ref "+x.T+")")
+			yrow := sel(h, "(s_ref "+y.T+")")
+			base := "(bvadd (s_off " + x.T + ") (s_len " + x.T + "))"
+			nr := st.fresh("approw", arr(sBV64, es))
+			q1 := "(forall ((qj (_ BitVec 64))) (=> (and (bvsle #x0000000000000000 qj) (bvslt qj " + ylen + ")) (= (select " + nr + " (bvadd " + base + " qj)) (select " + yrow + " (bvadd (s_off " + y.T + ") qj)))))"
+			q2 := "(forall ((qi (_ BitVec 64))) (=> (or (bvslt qi " + base + ") (bvsge qi (bvadd " + base + " " + ylen + "))) (= (select " + nr + " qi) (select " + row + " qi))))"
+			st.assume("(bvslt (s_len " + x.T + ") #x3fffffffffffff00)")
+			st.assume("(bvslt " + ylen + " #x3fffffffffffff00)")
+			st.assume(q1)
+			st.assume(q2)
+			e.heapSet(st, key, sto(h, ref, nr))
+			nl := "(bvadd (s_len " + x.T + ") " + ylen + ")"
+			nc := st.fresh("newcap", sBV64)
+			st.assume(and("(bvsge "+nc+" "+nl+")", "(bvslt "+nc+" #x7fffffffffffff00)"))
+			res := st.define("appended", sSlice, fmt.Sprintf("(mkSlice %s (s_off %s) %s %s)", ref, x.T, nl, nc))
+			return &Val{T: res, S: sSlice, Typ: c.Args[0].Type()}, nil
 		}
 		_ = ylen
 		ref := st.newRef()
@@ -1044,7 +1064,6 @@ func (e *Engine) borrowCheck(fr *Frame, st *State, v *Val, how string, pos token
 	o := e.addObligation(st, fr, "borrowed-slice", []string{"borrow"}, "a slice borrowed from "+lender+" (valid only until the next call) is "+how, e.posStr(pos), "false", nil)
 	o.Query = preamble + "(assert true)\n" // a dataflow fact of this path: decided syntactically, reported as a failed obligation
 }
-
 
 // atCallChecks: `atcall callee: expr` clauses of the function under verification are proof obligations at every
 // call of a function whose name ends in `.callee` (or equals it), evaluated in the caller's frame: locals are visible.
